@@ -78,8 +78,10 @@ pub fn clip_line(
 /// the threshold are of 0.01 is used since
 /// lines may not be very aligned.
 pub fn is_collinear(a: &Point, b: &Point, c: &Point) -> bool {
-    use std::ops::Deref;
-    Triangle::new(*a.deref(), *b.deref(), *c.deref()).area() < 0.01
+    // area of the triangle by the cross product: exact for points on the cell grid, whereas
+    // the side-length formula loses precision on long diagonals
+    let cross = (b.x - a.x) * (c.y - a.y) - (b.y - a.y) * (c.x - a.x);
+    cross.abs() / 2.0 < 0.01
 }
 
 pub fn pad(v: f32) -> f32 {
